@@ -123,6 +123,20 @@ def verify_function(qual, prop, program=None, reg=None, self_cls=None, tag=None,
             fr.display = fname
             fr.old = st
             fr.params = dict(env)
+            # axioms over uninterpreted functions (facts about external code the abstractions stand for); each one that is
+            # used is listed in the trusted base
+            for an, avars, aformula, anote in getattr(R, "axioms", []):
+                if getattr(c, "axioms", None) is None or an not in c.axioms:
+                    continue
+                consts = {n: E.fresh(k, "ax_" + n) for n, k in avars}
+                E.__dict__.setdefault("quant_axioms", []).append({"n0": len(st.pc), "items": []})
+                try:
+                    body = E.spec_bool(aformula, st, consts, st, fr)
+                finally:
+                    E.quant_axioms.pop()
+                E.uses_quantifiers = True
+                st = st.assume(z3.ForAll([v.t for v in consts.values()], body))
+                E.trusted.add("axiom %s: %s (%s)" % (an, aformula, anote))
             # requires
             for r in c.requires:
                 if not calls.in_force(r, prop):
